@@ -214,6 +214,7 @@ fn families(thorough: bool) -> Vec<(String, String)> {
         ("macro without end", "macro m(a) -> inc a"),
         ("macro jumping twice to one later label", "macro oor(x, l) -> cmp x,10 ja l cmp x,0 je l <-\nstart:\nmov ax, 5\noor(ax, bad)\noor(bx, bad)\nmov bx, 1\nbad:\nprint reg\n"),
         ("recursive macro", "macro r(a) -> r(a) <-\nstart:\nr(ax)\n"),
+        ("recursion closed by a later use of a macro that expanded before", "macro skip(a) -> inc ax <-\nmacro run(k) -> k (k) <-\nstart:\nrun(skip)\nrun(skip)\nrun(run)\n"),
         ("mutually recursive macros", "macro p(a) -> q(a) <-\nmacro q(a) -> p(a) <-\nstart:\np(ax)\n"),
         ("macro passing itself", "macro p(a) -> a(a) <-\nstart:\np(p)\n"),
         ("huge array counts", "a: db [65535]\nb: db [65535]\nc: dw [65535]\nstart:\nhlt\n"),
